@@ -22,7 +22,7 @@ mod verif_replay_s {
             self.text.check_restrictions(Some(Rc::new(Restrictions { max_length: Some(4), ..Default::default() })))
         }
     }
-    #[derive(Debug, Default, PartialEq, YaSerialize, YaDeserialize)]
+    #[derive(Debug, Default, Clone, PartialEq, YaSerialize, YaDeserialize)]
     #[yaserde(rename = "Pong")]
     struct Pong { #[yaserde(rename = "answer")] answer: String }
 
@@ -95,8 +95,8 @@ mod verif_replay_s {
                     if !q.ends_with(&want_body) { println!("S|body|{case}|body is not the serialized envelope"); }
                     let has_auth = q.to_lowercase().contains("authorization: basic dxnlcjpzzwnyzxq=");
                     if has_auth != creds.is_some() { println!("S|auth|{case}|basic credentials present: {has_auth}"); }
-                    if status == 204 { continue; }      // a 204 reply has no body by definition; nothing to expect about the value
-                    let should_ok = (200..300).contains(&status) && bname == "envelope";
+                    // a 204 reply carries no body (the client ignores whatever follows the headers): never a response envelope, so an error
+                    let should_ok = (200..300).contains(&status) && status != 204 && bname == "envelope";
                     match (&r, should_ok) {
                         (Ok(p), true) => if p.answer != "pong" { println!("S|value|{case}|wrong value {p:?}"); },
                         (Err(_), false) => {}
@@ -164,7 +164,7 @@ mod verif_replay_s {
 FORWARD = '''
 #[cfg(test)]
 pub(crate) async fn send_for_verif<YI, YO, U, P>(client: &reqwest::Client, url: &str, credentials: Option<(U, P)>, req: YI) -> error::SoapResult<YO>
-where YI: yaserde::YaSerialize + restrictions::CheckRestrictions, YO: yaserde::YaDeserialize, U: std::fmt::Display, P: std::fmt::Display,
+where YI: yaserde::YaSerialize + restrictions::CheckRestrictions, YO: yaserde::YaDeserialize + Default + std::fmt::Debug + Clone + Send + 'static, U: std::fmt::Display, P: std::fmt::Display,
 { helpers::send_soap_request_using_client(client, url, credentials, req).await }
 '''
 
